@@ -344,7 +344,11 @@ Lemma rel_nosess xs h h' :
 Proof.
   intros Hs Ht Hp Ho. apply rel_sessions; auto; intros sid s; unfold get_sess; rewrite Hs; intros H; right; eauto.
 Qed.
-Ltac rel_ns := apply rel_nosess; reflexivity.
+Ltac rel_ns :=
+  apply rel_nosess;
+  (cbn [h_sessions h_mcutok h_mcupending h_mcuopen fst publish set_conns set_sessions set_rooms set_rs set_vtable
+        set_expired set_anonymous set_dialout set_clients set_counted set_fail set_bus set_nextsid set_clock
+        record_failure]; reflexivity).
 (* peel the outermost table update off the state on the right *)
 Ltac peel :=
   match goal with
@@ -906,4 +910,137 @@ Proof.
       match goal with |- context [fold_sessions h2 ?lv ?f] => destruct (fold_sessions h2 lv f) as [h3 o2] eqn:H3 end.
       cbn [fst]. rewrite (fst_eq _ _ _ H3). apply rel_fold_sessions; [exact R2|]. intros. apply rel_send_session.
   - rel_ns.
+Qed.
+
+Lemma hold_rel_xs xs h h' : Rel xs h h' -> Hold h ->
+  (forall sid s', xs sid -> get_sess h' sid = Some s' -> is_virtual (s_kind s') = false -> sess_hold s') -> Hold h'.
+Proof.
+  intros R Ho Hx sid s' Hs' Hv.
+  destruct (r_sess _ _ _ R sid s' Hs') as [He|(s & f & Hs & Hk & Hp & Hsu & Hpm & Hpe)].
+  - apply toks_nil_inv in He as [E _]. intros st tok Hin. rewrite E in Hin. destruct Hin.
+  - destruct Hpe as [Hpe|Hxs]; [|now apply (Hx sid s')]. intros st tok Hin. rewrite Hpe, Hpm.
+    apply (Ho sid s Hs); [congruence|]. rewrite Hp in Hin. apply filter_In in Hin as [Hin _]. exact Hin.
+Qed.
+Lemma inv_rel_xs xs h h' : Rel xs h h' -> Inv h ->
+  (forall sid s', xs sid -> get_sess h' sid = Some s' -> is_virtual (s_kind s') = false -> sess_hold s') -> Inv h'.
+Proof.
+  intros R I Hx. constructor.
+  - eapply own_rel; eauto. apply I.
+  - eapply held_rel; eauto; apply I.
+  - apply (r_nodup _ _ _ R), I.
+  - eapply tokinv_rel; eauto. apply I.
+  - eapply uniq_rel; eauto. apply I.
+  - eapply hold_rel_xs; eauto. apply I.
+Qed.
+
+Lemma inv_deliver_pub h p : Inv h -> Inv (fst (deliver_pub h p)).
+Proof.
+  intros I. unfold deliver_pub.
+  destruct (p_subj p) as [b r|b r|b u|sid|]; destruct (p_msg p) as [m sender co|m|sj internal|pm| |q]; try exact I.
+  - apply (inv_rel h); [|exact I]. apply rel_fold_sessions; [apply rel_refl|]. intros. apply rel_recv_event.
+  - apply (inv_rel h); [|exact I]. apply rel_fold_sessions; [apply rel_refl|]. intros. apply rel_recv_event.
+  - destruct (room_of h (b, r)) as [rm|]; [|exact I].
+    match goal with |- context [match ?o with [] => _ | _ => _ end] => destruct o end; [exact I|]. cbn [fst].
+    apply (inv_rel h); [|exact I]. apply rel_fold_left; [rel_ns|].
+    intros hh x. destruct (get_sess hh x) as [sx|]; [|apply rel_refl].
+    destruct (is_virtual (s_kind sx) && negb (N.eqb (s_flags sx) 0)); [rel_ns|apply rel_refl].
+  - apply (inv_rel h); [|exact I]. apply rel_room_request.
+  - apply (inv_rel h); [|exact I]. apply rel_fold_sessions; [apply rel_refl|]. intros. apply rel_recv_event.
+  - destruct (get_sess h sid) as [s|]; [|exact I]. destruct (is_virtual (s_kind s)); [exact I|].
+    apply (inv_rel h); [|exact I]. apply rel_recv_event.
+  - destruct (get_sess h sid) as [s|]; [|exact I]. destruct (is_virtual (s_kind s)); [exact I|].
+    apply (inv_rel h); [|exact I]. apply rel_recv_event.
+  - (* permissions: set, then revoke *)
+    destruct (get_sess h sid) as [s|] eqn:Hs; [|exact I]. destruct (is_virtual (s_kind s)); [exact I|].
+    apply (inv_rel_xs (fun x => x = sid) h); [|exact I|].
+    + eapply rel_trans; [|apply rel_revoke]. apply rel_put_perms with s; try reflexivity; [exact Hs|now right].
+    + intros x s' -> Hs' _. eapply revoke_establishes; eauto.
+  - destruct (get_sess h sid) as [s|]; [|exact I]. destruct (is_virtual (s_kind s)); [exact I|].
+    destruct (leave_room h sid false) as [h1 o1] eqn:H1.
+    destruct (send_session h1 sid (SBye B_room_session_reconnected)) as [h2 o2] eqn:H2.
+    destruct (close_session h2 sid) as [h3 o3] eqn:H3. cbn [fst].
+    apply (inv_rel h); [|exact I].
+    apply rel_trans with h1; [rewrite (fst_eq _ _ _ H1); apply rel_leave_room|].
+    apply rel_trans with h2; [rewrite (fst_eq _ _ _ H2); apply rel_send_session|].
+    rewrite (fst_eq _ _ _ H3); apply rel_close_session.
+Qed.
+
+Lemma inv_deliver_at h pos : Inv h -> Inv (fst (deliver_at h pos)).
+Proof.
+  intros I. unfold deliver_at. destruct (take_nth pos (h_bus h)) as [[p rest]|]; [|exact I].
+  apply inv_deliver_pub. apply (inv_rel h); [rel_ns|exact I].
+Qed.
+
+Lemma rel_do_api xs h b room q : Rel xs h (fst (do_api h b room q)).
+Proof.
+  unfold do_api. destruct q as [|users rs|tag|l|l|ic|tag]; cbn [fst]; try rel_ns.
+  - apply rel_fold_left.
+    + apply rel_fold_left; [apply rel_refl|]. intros. rel_ns.
+    + intros hh x. destruct (aget (h_rs2 hh) (1000000 + x)); [rel_ns|apply rel_refl].
+  - match goal with |- context [match ?o with [] => _ | _ => _ end] => destruct o end; cbn [fst]; [apply rel_refl|].
+    peel. apply rel_fold_left; [apply rel_refl|].
+    intros hh [[i icv] pm]. destruct i; try apply rel_refl. destruct pm; [rel_ns|apply rel_refl].
+  - match goal with |- context [match ?o with [] => _ | _ => _ end] => destruct o end; cbn [fst]; [apply rel_refl|rel_ns].
+Qed.
+
+Lemma rel_do_tick xs h secs : Rel xs h (fst (do_tick h secs)).
+Proof.
+  unfold do_tick.
+  match goal with |- context [let '(h1, o1) := ?X in _] => destruct X as [h1 o1] eqn:H1 end.
+  assert (R1 : Rel xs h h1).
+  { destruct (30 <? secs); [|injection H1 as <- <-; apply rel_refl].
+    rewrite (fst_eq _ _ _ H1). apply rel_fold_sessions; [apply rel_refl|]. intros. apply rel_close_session. }
+  match goal with |- context [let '(h2, o2) := ?X in _] => destruct X as [h2 o2] eqn:H2 end.
+  assert (R2 : Rel xs h h2).
+  { destruct (10 <? secs); [|injection H2 as <- <-; exact R1].
+    rewrite (fst_eq _ _ _ H2). apply rel_fold_sessions; [exact R1|]. intros hh sid.
+    destruct (get_sess hh sid) as [s|]; [|apply rel_refl].
+    match goal with |- context [let '(h3, o3) := ?X in _] => destruct X as [h3 o3] eqn:H3 end.
+    assert (R3 : Rel xs hh h3).
+    { destruct (s_conn s); [|injection H3 as <- <-; apply rel_refl]. rewrite (fst_eq _ _ _ H3). apply rel_send_conn. }
+    destruct (close_session h3 sid) as [h4 o4] eqn:H4. cbn [fst]. rewrite (fst_eq _ _ _ H4).
+    eapply rel_trans; [exact R3|apply rel_close_session]. }
+  match goal with |- context [let '(h3, o3) := ?X in _] => destruct X as [h3 o3] eqn:H3 end.
+  cbn [fst]. destruct (2 <? secs); [|injection H3 as <- <-; exact R2].
+  rewrite (fst_eq _ _ _ H3). apply rel_fold_sessions; [exact R2|]. intros. apply rel_send_conn.
+Qed.
+
+Lemma rel_do_internal xs h c sid s q : get_sess h sid = Some s -> Rel xs h (fst (do_internal h c sid s q)).
+Proof.
+  intros Hs. unfold do_internal.
+  destruct q as [v rn user flags incall|v rn flags incall|v rn|ic].
+  - set (k := (s_backend s, rn)). destruct (room_of h k) as [r|]; [|apply rel_refl].
+    set (vs := next_id h). set (h0 := set_nextsid h vs).
+    match goal with |- context [put_sess ?hh vs ?ss] => set (hr := hh); set (vsess := ss) end.
+    set (h1 := put_sess hr vs vsess).
+    assert (R1 : Rel xs h h1).
+    { apply rel_trans with hr; [rel_ns|]. apply rel_new; [exact (next_id_fresh h)|reflexivity]. }
+    set (h2 := set_vtable h1 (pset (h_vtable h1) (sid, v) vs)).
+    match goal with |- context [rs_set h2 vs ?x] => set (h5 := rs_set h2 vs x) end.
+    assert (R5 : Rel xs h h5).
+    { eapply rel_trans; [exact R1|]. apply rel_trans with h2; [rel_ns|apply rel_rs_set]. }
+    match goal with |- context [let '(h10, outs10) := match ?pvx with Some _ => _ | None => _ end in _] => destruct pvx as [pv|] end.
+    + match goal with |- context [close_one ?hh pv] => set (h9 := hh) end.
+      assert (R9 : Rel xs h h9).
+      { unfold h9. peel. destruct (N.eqb _ 0); repeat peel; exact R5. }
+      destruct (close_one h9 pv) as [h10 o10] eqn:H10. cbn [fst]. rewrite (fst_eq _ _ _ H10).
+      eapply rel_trans; [exact R9|apply rel_close_one].
+    + cbn [fst]. peel. destruct (N.eqb _ 0); repeat peel; exact R5.
+  - set (k := (s_backend s, rn)).
+    destruct (room_of h k) as [r|]; [|apply rel_refl]. destruct (pget (h_vtable h) (sid, v)) as [vs|]; [|apply rel_refl].
+    destruct (get_sess h vs) as [t|] eqn:Ht; [|apply rel_refl]. cbn [fst].
+    match goal with |- context [put_sess h vs ?t1] => set (h1 := put_sess h vs t1) end.
+    assert (R1 : Rel xs h h1) by (apply rel_put with t; [exact Ht|reflexivity]).
+    repeat match goal with |- context [if ?c then _ else _] => destruct c end; repeat peel;
+      try (eapply rel_trans; [|apply rel_set_incall]); repeat peel; exact R1.
+  - set (k := (s_backend s, rn)).
+    destruct (room_of h k) as [r|]; [|apply rel_refl]. destruct (pget (h_vtable h) (sid, v)) as [vs|]; [|apply rel_refl].
+    eapply rel_trans; [|apply rel_close_one]. rel_ns.
+  - destruct (N.eqb ic (s_incall s)); [apply rel_refl|].
+    match goal with |- context [put_sess h sid ?t1] => set (h1 := put_sess h sid t1) end.
+    assert (R1 : Rel xs h h1) by (apply rel_put with s; [exact Hs|reflexivity]).
+    destruct (s_room s) as [k|]; [|exact R1].
+    destruct (N.testbit ic 0); [cbn [fst]; peel; eapply rel_trans; [exact R1|apply rel_set_incall]|].
+    destruct (leave_call (set_incall h1 k sid false) sid) as [h2 o2] eqn:H2. cbn [fst]. peel.
+    rewrite (fst_eq _ _ _ H2). eapply rel_trans; [exact R1|]. eapply rel_trans; [apply rel_set_incall|apply rel_leave_call].
 Qed.
